@@ -112,6 +112,14 @@ def run(ctx):
     texts["non-ascii"] = NON_ASCII
     texts["byte-order-mark"] = BOM
     texts["coding-cookie"] = COOKIE
+    # entry points that are callable without arguments but declare parameters (twelfth seeding round)
+    texts["accepted-main-with-a-default-argument"] = ("from nada_dsl import *\n\n\ndef nada_main(scale=3):\n    p = Party(name='P0')\n    a = SecretInteger(Input(name='a', party=p))\n"
+                                                      "    return [Output(a * Integer(scale), 'o', p)]\n")
+    texts["accepted-output-names-with-blanks-and-punctuation"] = ("from nada_dsl import *\n\n\ndef nada_main():\n    p = Party(name='P 0')\n    a = SecretInteger(Input(name='a', party=p))\n"
+                                                                  "    b = SecretInteger(Input(name='b', party=p))\n"
+                                                                  "    return [Output(a + b, 'total sum', p), Output(a * b, 'a:b', p), Output(a - b, 'x/y', p), Output(a, '\u00fcn\u00ef', p), Output(b, 'dotted.name', p)]\n")
+    texts["accepted-main-with-star-arguments"] = ("from nada_dsl import *\n\n\ndef nada_main(*unused, **also_unused):\n    p = Party(name='P0')\n    a = SecretInteger(Input(name='a', party=p))\n"
+                                                  "    b = SecretInteger(Input(name='b', party=p))\n    return [Output(a + b, 'o', p)]\n")
     seeds = ["0", "1", "12345"] if quick else ["0", "1", "2", "12345", "random"]
     names = NAMES[:7] if quick else NAMES
     seeds = seeds + (["7", "99"] if quick else ["7", "99", "31337"])
@@ -153,6 +161,7 @@ def run(ctx):
             mime = base64.encodebytes(text.encode()).decode()
             jobs.append((pn, "cli-s+mime", "-", seeds[0], "", ["-m", "nada_dsl.compile", "-s", mime]))
             jobs.append((pn, "api-string+mime", "-", seeds[0], "", [os.path.join(d, "api_string.py"), mime]))
+            jobs.append((pn, "cli-s+timers-file-blocked", "-", seeds[0], "", ["-m", "nada_dsl.compile", "-s", b64]))
 
         def one(job):
             pn, entry, name, seed, tm, args = job
@@ -162,6 +171,10 @@ def run(ctx):
             if "@" in entry:
                 env["PYTHONIOENCODING"] = entry.split("@")[1]     # the encoding of the child's standard output
             cwd = tempfile.mkdtemp(prefix="cwd_", dir=os.path.join(d, "cwd"))
+            if entry.endswith("+timers-file-blocked"):
+                # timers on in a directory where the timers report cannot be written: still exactly one JSON object
+                env["NADA_TIMER"] = "1"
+                os.makedirs(os.path.join(cwd, "nada-timers.json"))
             rc, out, err, dt = vlib.run([vlib.PY] + args, 120, cwd=cwd, env=env)
             return out
         with concurrent.futures.ThreadPoolExecutor(max_workers=vlib.NCPU) as ex:
